@@ -1265,7 +1265,7 @@ class CompartmentalModel:
         self._assert_not_finalized()
         msg = f"A derived output named {name} already exists."
         assert name not in self._derived_output_requests, msg
-        for k, v in func.kwargs.items():
+        for v in [*func.args, *func.kwargs.values()]:
             if isinstance(v, params.DerivedOutput):
                 source = v.key
                 assert (
